@@ -134,11 +134,14 @@ with expr_bu (ds : dataset) (g : graph) (m : sol) (e : expr) {struct e} : option
   | EExists pos p =>
       (* 18.6 exists(pattern): the pattern is evaluated with the variables of the
          current solution substituted; read here as: some solution of the pattern
-         is compatible with the current one, a filter at the top of the pattern
-         seeing the merged solution *)
+         is compatible with the current one, and a filter at the top of the pattern
+         sees the merged solution - whatever annotation rdflib put on that filter
+         (the specification does not read no_isolated_scope).  Not full
+         substitution: a filter / BIND / MINUS deeper inside the pattern does not
+         see the outer solution here; rdflib does not show it to them either. *)
       let found :=
         match p with
-        | Filter true _ e' q =>
+        | Filter _ _ e' q =>
             existsb (fun m' => compatible m' m && ebv (expr_bu ds g (merge m' m) e')) (eval_bu ds g q)
         | _ => existsb (fun m' => compatible m' m) (eval_bu ds g p)
         end in
